@@ -339,6 +339,26 @@ func genCoalEventTypes(repo string, root *pkg) {
 		fatal("GetAuditEventType: no default clause")
 	}
 	// cross-check against the running library on every record type
+	type rng struct{ lo, hi, cat int64 }
+	var rs []rng
+	for _, it := range items {
+		var r rng
+		fmt.Sscanf(it, "(%d, %d, %d)", &r.lo, &r.hi, &r.cat)
+		rs = append(rs, r)
+	}
+	for t := int64(0); t < 65536; t++ {
+		want := int64(aucoalesce.GetAuditEventType(auparse.AuditMessageType(t)))
+		got := def
+		for _, r := range rs {
+			if r.lo <= t && t <= r.hi {
+				got = r.cat
+				break
+			}
+		}
+		if got != want {
+			fatal("GetAuditEventType: extracted ranges give category %d for record type %d, the library gives %d", got, t, want)
+		}
+	}
 	var b bytes.Buffer
 	b.WriteString("namespace LA.Gen.CoalEventTypes\n\n/-- the cases of `GetAuditEventType` in source order: (lo, hi, category); first match wins. -/\n")
 	chunked(&b, "ranges", "Nat × Nat × Nat", items)
